@@ -479,6 +479,25 @@ func cmdSelftest(args []string) int {
 		fmt.Println("selftest: solver answered", r)
 		return 2
 	}
+	// the interpreter on two tiny programs with a known outcome
+	p, err := loadProgram(harnessPaths([]string{"prims.go", "selftest.go"}), nil)
+	if err != nil {
+		fmt.Println("selftest: load:", err)
+		return 2
+	}
+	good, err := explore(p, RunCfg{Name: "selftest", Entry: "harnessSelftest", Workers: 2})
+	if err != nil || len(good.Viols) != 0 || len(good.Inconc) != 0 || good.Covers["selftest-done"] == 0 {
+		fmt.Println("selftest: the passing program did not pass:", err)
+		if good != nil {
+			printResult(good, true)
+		}
+		return 2
+	}
+	bad, err := explore(p, RunCfg{Name: "selftest-bad", Entry: "harnessSelftestBad", Workers: 2})
+	if err != nil || len(bad.Viols) != 1 {
+		fmt.Println("selftest: the failing program was not reported:", err)
+		return 2
+	}
 	fmt.Println("selftest ok:", solverVersion())
 	return 0
 }
